@@ -53,6 +53,11 @@ fn mod_bareiss_determinant<C: CurveArithmetic>(
     mut matrix: Vec<Vec<C::Scalar>>,
     rows: usize,
 ) -> Result<C::Scalar, &'static str> {
+    // The determinant of the empty (0x0) matrix is 1; it is the minor of a 1x1 matrix.
+    if rows == 0 && matrix.is_empty() {
+        return Ok(C::Scalar::ONE);
+    }
+
     if matrix.len() != rows || matrix[0].len() != rows {
         return Err("Not a square matrix");
     }
